@@ -127,6 +127,16 @@ func runOne(ctx context.Context, sp solverSpec, query string, id string, timeout
 	return first, text, secs
 }
 
+// solveCover answers a reachability (cover) query with one solver only: covers are advisory vacuity guards and there are
+// several per unit, so racing three solvers on each tripled the process count for nothing.
+func solveCover(query, id string, timeoutMs int) *SolveResult {
+	solveSem <- struct{}{}
+	defer func() { <-solveSem }()
+	q := "(set-option :produce-models true)\n" + query + "(check-sat)\n"
+	st, out, secs := runOne(context.Background(), solvers[0], q, id, timeoutMs)
+	return &SolveResult{Status: st, Solver: solvers[0].name, Secs: secs, Output: out, Answers: map[string]string{solvers[0].name: st}}
+}
+
 // solve races the solvers on one query. In thorough mode all answers are collected.
 func solve(query, id string, timeoutMs int, thorough bool, wantModel bool) *SolveResult {
 	solveSem <- struct{}{}
